@@ -59,6 +59,11 @@ CHECKS["C16"] = dict(level="model_checking", design="5/C16",
    text="Every built-in of the global module and the standard library (473 natives) is called with every vector of up to 3 (thorough: 4) arguments over 15 value kinds, with boundary values per kind; TLC decides on Natives.tla whether the gate refuses the call (arity / kind) or the body runs, the VM must agree and must never panic, abort, fault or hang. Generated programs: unbounded recursion through cycles of 22 kinds of call link (functions, closures, methods, initialisers, bound methods, .call, each iterator adaptor's callback, sort, interpolation, super, index calls) on the main fiber, a launched fiber and under a native callback must end in a catchable stack-overflow error; non-callables called, launched and passed as callbacks; non-errors raised; 20 kinds of bad superclass; error classes with odd initialisers raised uncaught, caught, wrapped and under callbacks; errors while handling errors; exit() at every depth; launch of every callable kind; str() that returns a non-string, raises or recurses at every site that calls it; self-containing values.",
    note="Trusts the natives dump hook, the error messages of the gate as its observable verdict, TLC. Values per kind are drawn from fixed pools (boundary numbers, multi-byte strings, empty and grown collections). Debug build in quick, debug and release in thorough. Two known findings (blocking channel operation under a native callback; collector recursion on very deep structures) are listed in known_findings.json.")
 
+CHECKS["C15"] = dict(level="model_checking", design="5/C15",
+   technique="TLA+ contract Frontend.tla (a pass is submit, diagnostics, then reject or accept-execute-finish; a session keeps its definitions across rejected entries), model-checked by TLC and used to validate event traces of real passes (file runs, interactive sessions) recorded from the VM; inputs from mutation of a program corpus, exhaustive short token sequences, boundary counts and nesting",
+   text="About 300 000 texts per quick run (the repository's .lay fixtures and generated programs mutated at token, line and byte level; every token sequence up to length 3 over a 48-token alphabet, bare and behind declarations of the names they use; 255/256-style boundary counts for locals, parameters, arguments, captures, fields, methods, collection literals, interpolation segments, 65535/65536 constants, jumps beyond 64 KiB; tokens up to 100 000 characters (1 000 000 thorough); nesting of 33 bracketing and prefix constructs up to depth 500) are compiled by the real scanner, parser, resolver and compiler under crash and hang isolation; 1500 rejected texts are run as files behind a printing statement and 600 are entered at the prompt between definitions and probes; TLC validates every recorded pass against Frontend.tla (ends; rejected exactly when diagnosed, with the compile-error status; nothing executed; definitions intact and the session continues).",
+   note="Trusts the harness's compile-only entry (lvh dump = laythe_vm::verif::compile_dump, the same pipeline Vm::run uses), the 'error:' blocks on stderr as the observable diagnostics, TLC. Nesting is exercised to depth 500 (700 thorough) on an 8 MiB stack; what is accepted is not judged here (C01/C19), only how a pass may end.")
+
 NOT_APPLICABLE = {}
 
 def main():
